@@ -3,6 +3,9 @@
 GL1  functions write no module-level mutable state (memo dicts, 'global' caches) outside the documented sites
 DT   arrays that hold float game values are not allocated with an integer dtype (``zeros_like(<id array>)``) and no
      narrow (8/16 bit) integer dtype is used for id / index tables
+VW   (= G6 of C17, scoped to the anchor files) results of view-returning getters of the game are never mutated in place
+OBS  gap functions and everything they call on the game they were given are pure observers of that game
+RS   a flat sequence produced by a doubly nested comprehension is reshaped with the outer loop as the first axis
 """
 from __future__ import annotations
 
@@ -35,6 +38,38 @@ def anchor_files(pid: str) -> list[str]:
             if p["id"] == pid:
                 return list(p["anchors"]["files"])
     return []
+
+
+_SCOPE_CACHE: dict = {}
+
+
+def scope_files(prog: Program, pid: str) -> set[str]:
+    """The anchor files of the property plus the files of every package function reachable from a function of the anchor files
+    through resolved calls (plain functions, constructors; depth 3): the code the property's code actually runs."""
+    key = (id(prog), pid)
+    if key in _SCOPE_CACHE:
+        return _SCOPE_CACHE[key]
+    from .common import resolve_callee
+    files = set(anchor_files(pid))
+    todo = [(r, 0) for r in prog.all_functions() if r.module.rel() in files]
+    seen = set()
+    out = set(files)
+    while todo:
+        ref, d = todo.pop()
+        if ref.qual in seen:
+            continue
+        seen.add(ref.qual)
+        out.add(ref.module.rel())
+        if d >= 3:
+            continue
+        ft = fterms(prog, ref)
+        for e in ft.calls():
+            c = resolve_callee(prog, ft, e)
+            if c is not None and "/tests/" not in c.module.rel():
+                todo.append((c, d + 1))
+    _SCOPE_CACHE.clear()
+    _SCOPE_CACHE[key] = out
+    return out
 
 
 def _root(t):
@@ -82,6 +117,26 @@ def _derives_from_ids(t) -> bool:
     return False
 
 
+def _integer_array(t) -> bool:
+    """An array that is integer-typed by construction: arange/argsort/... of integers, possibly through elementwise integer operations."""
+    if not isinstance(t, tuple):
+        return False
+    if is_call_to(t, "numpy.arange"):
+        dt = dict(t[3]).get("dtype")
+        floaty = (dt is not None and ("float" in show(dt) or "Value" in show(dt))) or any(a[0] == "const" and isinstance(a[1], float) for a in t[2])
+        return not floaty
+    if is_call_to(t, "numpy.maximum", "numpy.minimum", "numpy.add", "numpy.multiply", "numpy.abs", "numpy.flip", "numpy.sort") and t[2]:
+        return all(_integer_array(a) or (a[0] == "const" and isinstance(a[1], int)) for a in t[2]) and any(_integer_array(a) for a in t[2])
+    if t[0] == "bin" and t[1] in ("+", "-", "*", "//", "**"):
+        sides = (t[2], t[3])
+        return all(_integer_array(a) or (a[0] == "const" and isinstance(a[1], int)) or a[0] == "param" for a in sides) and any(_integer_array(a) for a in sides)
+    if t[0] == "index" and t[2][0] == "slice":
+        return _integer_array(t[1])
+    if t[0] == "call" and t[1][0] == "attr" and t[1][2] == "astype" and t[2]:
+        return "int" in show(t[2][0])
+    return False
+
+
 def rule_dtypes(prog: Program, col: Collector) -> None:
     files = set(anchor_files(col.property_id))
     col.rule("DT", "no float value buffer is allocated with the integer dtype of an id array (`*_like(<ids>)`), and no 8/16-bit dtype is used for tables", 1)
@@ -99,6 +154,18 @@ def rule_dtypes(prog: Program, col: Collector) -> None:
                     col.violation(ref.where(e.node), ref.short, "int-buffer-like-ids",
                                   f"{e.func[1].rsplit('.', 1)[1]}({short(e.args[0], 40)}) inherits the integer dtype of a coalition-id array",
                                   "bounds and values stored into an integer buffer are truncated toward zero: exact for integer games, wrong for every float game")
+            # products of integer arrays (factorials, binomials) wrap silently at 2**63: 21! does not fit
+            prod_arg = None
+            if is_global(e.func, "numpy.cumprod", "numpy.prod", "numpy.cumproduct", "numpy.product", "numpy.multiply.accumulate", "numpy.multiply.reduce") and e.args:
+                prod_arg = e.args[0]
+            elif e.name in ("cumprod", "prod") and e.recv is not None and not e.args:
+                prod_arg = e.recv
+            if prod_arg is not None and "dtype" not in e.kwargs and _integer_array(prod_arg):
+                bad += 1
+                col.violation(ref.where(e.node), ref.short, "integer-product",
+                              f"{short(e.func, 30)} over the integer array {short(prod_arg, 50)}",
+                              "NumPy integer products wrap silently at 2**63 (21! already does not fit): factorial / binomial weights computed this way are "
+                              "exact for small player counts and garbage - even negative - from n = 22 on; math.factorial / math.comb use exact Python integers")
             dt = e.kwargs.get("dtype")
             cands = [dt] if dt is not None else []
             if is_global(e.func, "numpy.zeros", "numpy.ones", "numpy.empty", "numpy.full", "numpy.array", "numpy.arange", "numpy.fromiter"):
@@ -114,3 +181,153 @@ def rule_dtypes(prog: Program, col: Collector) -> None:
         raise AnalysisError("DT: no function found in the anchor files")
     if bad == 0:
         col.ok("-", "anchor files", f"{n} functions scanned: no integer-typed value buffer, no narrow dtype")
+
+
+def rule_view_escape(prog: Program, col: Collector) -> None:
+    """G6 under every property: a consumer in the property's anchor files that mutates a getter view corrupts the table."""
+    from .game import GameModel, check_view_escape
+    files = scope_files(prog, col.property_id)
+    check_view_escape(prog, col, GameModel(prog), scope_files=files)
+
+
+def game_mutators(prog: Program) -> set[str]:
+    """Methods of IncompleteCooperativeGame that (transitively, through self-calls) write the table or run the computer."""
+    from .game import GameModel
+    gm = GameModel(prog)
+    direct = set()
+    calls: dict[str, set[str]] = {}
+    for name, ref in gm.methods.items():
+        ft = fterms(prog, ref)
+        if gm.stores(ref) or any(e.func == ("attr", ("param", "self"), "_bounds_computer") for e in ft.calls()):
+            direct.add(name)
+        calls[name] = {e.name for e in ft.calls() if e.recv == ("param", "self") and e.name in gm.methods}
+    changed = True
+    while changed:
+        changed = False
+        for name, cs in calls.items():
+            if name not in direct and cs & direct:
+                direct.add(name)
+                changed = True
+    return {m for m in direct if not m.startswith("__")}
+
+
+def rule_observers_pure(prog: Program, col: Collector) -> None:
+    from ..core import registry, unwrap_partial
+    from .common import resolve_callee
+    files = scope_files(prog, col.property_id)
+    col.rule("OBS", "a gap function, and every package function it hands its game to, never calls a mutator of that game (set_*/reveal/unreveal/compute_bounds ...)", 1)
+    muts = game_mutators(prog)
+    if not {"compute_bounds", "set_value", "reveal_value"} <= muts:
+        raise AnalysisError(f"OBS: mutator set derived from game.py looks wrong: {sorted(muts)}")
+    roots = []
+    for e in registry(prog, "run.model.GAP_FUNCTIONS"):
+        callee, _a, _k, module, _env = unwrap_partial(prog, e.module, e.value, e.env)
+        q = prog.resolve(module, callee)
+        r = prog.find_func(q) if q else None
+        if r is not None:
+            roots.append(r)
+    if not roots:
+        raise AnalysisError("OBS: no gap function resolved from GAP_FUNCTIONS")
+    seen: dict[str, tuple] = {}
+    todo = [(r, 0, r.positional_params()[0]) for r in {x.qual: x for x in roots}.values()]
+    nsites = 0
+    NEC = ("every consumer (reward, done, solvers' probing, the searches) evaluates the gap on the game it is holding and goes on using that game: a gap function "
+           "that recomputes or rewrites bounds changes the state it was asked to measure, so stored intervals, later gaps and undo sequences no longer match")
+    while todo:
+        ref, depth, gparam = todo.pop()
+        key = (ref.qual, gparam)
+        if key in seen or depth > 3:
+            continue
+        seen[key] = True
+        ft = fterms(prog, ref)
+        G = ("param", gparam)
+
+        def rooted(t) -> bool:
+            while isinstance(t, tuple) and t[0] in ("attr", "index"):
+                t = t[1]
+            return t == G
+
+        in_scope = ref.module.rel() in files
+        for ev in ft.calls():
+            if ev.recv is not None and rooted(ev.recv) and ev.name in muts:
+                nsites += 1
+                if in_scope:
+                    col.violation(ref.where(ev.node), ref.short, f"observer-mutates:{ev.name}", f"{ref.short} calls {gparam}.{ev.name}(...) on the game it observes", NEC, rule="OBS")
+            callee = resolve_callee(prog, ft, ev)
+            if callee is not None and callee.qual != ref.qual:
+                cp = callee.positional_params()
+                if callee.cls is not None and cp and cp[0] == "self":
+                    cp = cp[1:]
+                for i, a in enumerate(ev.args):
+                    if i < len(cp) and a == G:
+                        todo.append((callee, depth + 1, cp[i]))
+                for k, a in ev.kwargs.items():
+                    if k and a == G:
+                        todo.append((callee, depth + 1, k))
+        if in_scope:
+            nsites += 1
+            col.ok(ref.where(), ref.short, f"observer {ref.short}({gparam}) examined: no mutator call on its game", rule="OBS") if not any(
+                f.rule == "OBS" and f.func == ref.short for f in col.findings) else None
+    if nsites == 0:
+        col.ok("-", "package", f"{len(seen)} observer functions reachable from GAP_FUNCTIONS examined (none in this property's anchor files)", rule="OBS")
+
+
+def _len_of(d, it) -> bool:
+    """Is ``d`` the number of elements of the iterable term ``it``?"""
+    if d == ("call", ("global", "len"), (it,), ()):
+        return True
+    if is_call_to(it, "range") and it[2] in ((d,), (("const", 0), d)):
+        return True
+    inner = it
+    while is_call_to(inner, "list", "tuple") and len(inner[2]) == 1:
+        inner = inner[2][0]
+        if d == ("call", ("global", "len"), (inner,), ()):
+            return True
+    return False
+
+
+def rule_reshape_order(prog: Program, col: Collector) -> None:
+    files = scope_files(prog, col.property_id)
+    col.rule("RS", "when the results of a doubly nested comprehension (for a in A for b in B) are reshaped to two axes, the axes are (len(A), len(B))", 0)
+    # positive control
+    A, B = ("param", "A"), ("param", "B")
+    comp = ("comp", "gen", ("const", 0), ((("elem", A, 1), A, ()), (("elem", B, 2), B, ())))
+    if not (_len_of(("call", ("global", "len"), (A,), ()), comp[3][0][1]) and not _len_of(("call", ("global", "len"), (B,), ()), comp[3][0][1])):
+        raise AnalysisError("RS positive control failed")
+    n = 0
+    for ref in prog.all_functions():
+        if ref.module.rel() not in files:
+            continue
+        ft = fterms(prog, ref)
+        for e in ft.calls():
+            dims = None
+            src_t = None
+            if e.name == "reshape" and e.recv is not None:
+                src_t = e.recv
+                dims = e.args[0][1] if len(e.args) == 1 and e.args[0][0] == "tuple" else e.args
+            elif is_global(e.func, "numpy.reshape") and len(e.args) >= 2:
+                src_t = e.args[0]
+                dims = e.args[1][1] if e.args[1][0] == "tuple" else e.args[1:]
+            if dims is None or len(dims) != 2:
+                continue
+            comps = [t for t in subterms(src_t) if t[0] == "comp" and len(t[3]) == 2]
+            if not comps:
+                continue
+            n += 1
+            outer, inner = comps[0][3][0][1], comps[0][3][1][1]
+            d1, d2 = dims
+            if _len_of(d1, outer) and _len_of(d2, inner):
+                col.ok(ref.where(e.node), ref.short, f"reshape({short(d1, 30)}, {short(d2, 30)}) follows the nesting order of the comprehension that produced the data")
+            elif _len_of(d1, inner) and _len_of(d2, outer):
+                transposed = any(isinstance(r.value, tuple) and any(s[0] == "attr" and s[2] == "T" and s[1] == e.term or is_call_to(s, "numpy.transpose") and s[2][:1] == (e.term,)
+                                                                    for s in subterms(r.value)) for r in ft.of_kind("return"))
+                col.check(False, ref.where(e.node), ref.short,
+                          f"reshape axes ({short(d1, 30)}, {short(d2, 30)}) follow the comprehension nesting (outer: {short(outer, 30)}, inner: {short(inner, 30)})",
+                          construct="reshape-axes-swapped",
+                          necessity="the flat results are ordered outer-loop-major: reshaping with the inner length first pairs every value with the wrong (row, column) - "
+                                    "here: the gap of the wrong (candidate, game) pair") if not transposed else col.undecidable(
+                    ref.where(e.node), ref.short, "reshape with swapped axes followed by a transpose of the same array: not the same matrix either (order='F' would be)")
+            else:
+                col.undecidable(ref.where(e.node), ref.short, f"cannot relate reshape axes ({short(d1, 30)}, {short(d2, 30)}) to the comprehension's iterables")
+    if n == 0:
+        col.ok("-", "anchor files", "no reshape of nested-comprehension results (positive control matched)")
